@@ -42,6 +42,12 @@ def evaluate(case):
     if not ok:
         return SKIP(why)
     sgn = {'method': o['burst_method'], 'devs': list(devs)}
+    # a user renamed an unrelated table with the public helper before (without sample columns): must not affect later analyses
+    import pandas as pd
+    from bycycle.utils import rename_extrema_df
+    rename_extrema_df('trough', pd.DataFrame({k: [1.] for k in ('time_peak', 'time_trough', 'volt_peak', 'volt_trough', 'time_rise',
+                                                                'time_decay', 'volt_rise', 'volt_decay', 'time_rdsym', 'time_ptsym')}),
+                      return_samples=False)
     dt = run_cf(sig, o, return_samples=True)
     o2 = dict(o)
     o2['center_extrema'] = 'peak'
